@@ -277,7 +277,7 @@ def main(mod, argv=None):
     ap = argparse.ArgumentParser()
     ap.add_argument("--tier", default=os.environ.get("VERIF_TIER", "quick"))
     ap.add_argument("--replay")
-    ap.add_argument("--jobs", type=int, default=int(os.environ.get("VERIF_JOBS", "16")))
+    ap.add_argument("--jobs", type=int, default=int(os.environ.get("VERIF_JOBS") or (os.cpu_count() or 16)))
     ap.add_argument("--only")
     a = ap.parse_args(argv)
     if a.replay:
